@@ -273,6 +273,7 @@ from ..variants import V  # noqa: E402
 _D = 'src/emsarray/operations/depth.py'
 _B = 'src/emsarray/conventions/_base.py'
 VARIANTS = [
+    V('C12', 'bathymetry-joins-depth-coordinates', 'src/emsarray/conventions/_base.py', "                self.get_grid_kind(data_array)\n                continue\n", "                self.get_grid_kind(data_array)\n                pass\n", 'R12.7'),
     V('C12', 'non-spatial-list-discarded', 'src/emsarray/operations/depth.py', "    if non_spatial_variables is None:\n        non_spatial_variables = []", "    if non_spatial_variables is not None:\n        non_spatial_variables = []", 'R12.8'),
     V('C12', 'scalar-coordinate-indexed', 'src/emsarray/utils.py', "        if len(coordinate.dims) == 0:\n            # A scalar coordinate, such as the time of one selected record,\n            # has no dimension\n            continue\n", "", 'R12.3'),
     V('C12', 'floor-index-left-lazy', _D, "    return cast(xarray.DataArray, max_depth_indexes.compute())", "    return cast(xarray.DataArray, max_depth_indexes)", 'R12.2'),
